@@ -81,7 +81,9 @@ REGISTRY_SIBLINGS = [["bcrypt", "bcrypt_sha256"], ["cisco_pix", "cisco_asa", "ci
                      ["bsd_nthash", "lmhash", "msdcc", "msdcc2", "nthash"]]
 REGISTRY_NAMES = ["md5_crypt", "sha256_crypt", "bcrypt", "pbkdf2_sha256", "ldap_salted_sha1", "phpass", "des_crypt", "scrypt",
                   "ldap_md5_crypt", "django_pbkdf2_sha256", "hex_md5", "unix_disabled", "bsdi_crypt", "nthash", "cisco_type7",
-                  "scram", "sun_md5_crypt", "fshp", "mssql2005", "oracle11", "grub_pbkdf2_sha512", "ldap_pbkdf2_sha256"]
+                  "scram", "sun_md5_crypt", "fshp", "mssql2005", "oracle11", "grub_pbkdf2_sha512", "ldap_pbkdf2_sha256",
+                  # (more of the handlers that are OBJECTS built by their module -- prefix wrappers -- rather than classes)
+                  "ldap_sha512_crypt", "ldap_des_crypt", "ldap_bcrypt", "django_bcrypt", "ldap_sha1_crypt"]
 
 
 # ---------------------------------------------------------------------------------------------
@@ -112,13 +114,16 @@ def _ctx_calls(rng, schemes, n, allow_hash=True, cats=(None,)):
         s = rng.choice(schemes)
         cat = rng.choice(list(cats))
         k = rng.choice(["hash", "verify", "verify", "identify", "needs_update", "schemes", "default_scheme", "handler", "to_dict",
-                        "context_kwds", "verify_wrong", "verify_and_update", "to_string"])
+                        "context_kwds", "verify_wrong", "verify_and_update", "to_string", "copy_use", "ctx_copy_use"])
         if k == "hash" and not allow_hash:
             k = "verify"
         if k == "hash":
             calls.append(["hash", rng.choice(["pw", "x", "é"]), cat])
         elif k in ("verify", "verify_wrong", "identify", "verify_and_update"):
             calls.append([k, s])
+        elif k in ("copy_use", "ctx_copy_use"):
+            # a copy of the shared object (copy.copy / copy.deepcopy / its own .copy()) taken as this thread's first access, then used
+            calls.append([k, s, rng.choice(["copy", "deepcopy"])])
         elif k == "needs_update":
             calls.append([k, s, cat])
         elif k == "default_scheme":
@@ -172,7 +177,7 @@ def generate(rng, prop, tier):
         name = rng.choice(REGISTRY_NAMES)
         # siblings: names hosted by the same, not yet imported, handler module -- the second thread asks for its
         # name while the first is in the middle of importing the module they share
-        names = rng.choice(REGISTRY_SIBLINGS) if rng.random() < 0.6 else [name]
+        names = rng.choice(REGISTRY_SIBLINGS) if rng.random() < 0.5 else [name]  # ([name]: every thread's first lookup is of the SAME name)
         # entries loaded before the threads start: the registry is then a populated container other threads keep adding to
         params = {"name": names[0], "names": names, "preload": rng.sample(REGISTRY_NAMES, rng.choice([0, 0, 1, 3])) }
         for _ in range(nthreads):
@@ -261,7 +266,9 @@ def generate(rng, prop, tier):
         sparams = {"victim": rng.randrange(nthreads), "p": rng.choice([0.0, 0.0, 0.01]),
                    "at": rng.choice([rng.randint(1, 6), rng.randint(1, 40), rng.randint(1, 400), rng.randint(1, 3000)])}
     elif strategy == "hotspot":
-        sparams = {"plan": [[rng.choice(HOT[:18]), rng.randint(1, 12)] for _ in range(rng.randint(1, 3))],
+        # (registry runs: the anchors of a name's first lookup, incl. attribute hooks of handler modules and of the proxy)
+        pool = ["get_crypt_handler", "register_crypt_handler", "__getattr__", "list_crypt_handlers", "__getattribute__", "__init__"] if t in ("T5", "T11") else HOT[:18]
+        sparams = {"plan": [[rng.choice(pool), rng.randint(1, 12)] for _ in range(rng.randint(1, 3))],
                    "p": rng.choice([0.0, 0.005, 0.02])}
     # pre-emption inside module bodies of imports made by the threads (cooperative import locks)
     preempt_imports = rng.random() < {"T5": 0.7, "T1": 0.25, "T2": 0.25, "T6": 0.25, "T11": 1.0}.get(t, 0.1)
@@ -502,6 +509,11 @@ def _call(env, k, spec):
         return ctx.identify(KNOWN[spec[1]])
     if k == "needs_update":
         return ctx.needs_update(KNOWN[spec[1]], category=spec[2])
+    if k in ("copy_use", "ctx_copy_use"):
+        import copy as _copy
+
+        c2 = ctx.copy() if k == "ctx_copy_use" else getattr(_copy, spec[2])(ctx)
+        return [list(c2.schemes()), c2.verify(PW, KNOWN[spec[1]]), c2.verify(PW + "x", KNOWN[spec[1]])]
     if k == "schemes":
         return list(ctx.schemes())
     if k == "default_scheme":
